@@ -373,6 +373,8 @@ fn scripted_case(kind: KindTag, world: usize, radius_factor: f64, seq: &[usize])
         query_cap: 400_000,
         world2: None,
         space2: None,
+        fault_persists: false,
+        raw_space: false,
     }
 }
 
